@@ -61,6 +61,17 @@ def run(res, tier, rng, table_diffs=()):
                 s.append("stel d = 0; zolang d < %d { d += 1; }; d" % rng.below(6))
         sessions.append(["stel a = 0"] + s)
     reqs = ["session 100000 " + " ".join(hx(l) for l in s) for s in sessions]
+    # a line that failed deep inside calls (or at the frame limit) leaves nothing behind that a later line could notice:
+    # later lines may again recurse almost to the limit
+    runaway = "functie r(n) { r(n + 1) } r(0)"
+    fail_deep = "functie f(n) { als n < 1 { 1 / 0 }; f(n - 1) } f(5000)"
+    ok_deep = "functie d(n) { als n < 1 { antwoord 0 }; d(n - 1) + 1 } d(50000)"
+    small_call = "functie q(a) { a + 1 } q(41)"
+    deep = [[runaway, small_call], [runaway, runaway, small_call, ok_deep], [fail_deep] * 4 + [ok_deep, small_call],
+            [ok_deep, fail_deep, ok_deep], ["stel a = 1", fail_deep, "a", runaway, "a + 1", small_call],
+            [fail_deep, "functie g() { [1.5, \"s\"] } g()", runaway, "functie g() { [2.5] } g()[0]"]]
+    sessions += deep
+    reqs += ["session 3000000 " + " ".join(hx(l) for l in s) for s in deep]
     ia = core.impl(reqs)
     ma = core.model(reqs)
     reported = 0
